@@ -96,7 +96,7 @@ def run(ctx, pid):
     par = 3
 
     def mc(name):
-        return name, ctx.tlc("SamplerMC", "Sampler_%s.cfg" % name, workers=5 if th else 4, timeout=3000 if th else 900,
+        return name, ctx.tlc("SamplerMC", "Sampler_%s.cfg" % name, workers=5 if th else 4, timeout=14400 if th else 5400,
                              name="Sampler/" + name, coverage=False)
 
     results = {}
@@ -131,7 +131,7 @@ def run(ctx, pid):
         raise Infra("too few inputs exported (%d)" % len(cases))
 
     # ---- S->I
-    res, out, rc = ctx.go_test("internal/data_model", "TestVerifC05C06Replay", inp=cases, timeout=1500)
+    res, out, rc = ctx.go_test("internal/data_model", "TestVerifC05C06Replay", inp=cases, timeout=7200)
     res = ctx.need_result(res, out, rc, "TestVerifC05C06Replay")
     if res["replayed"] != len(cases):
         raise Infra("replay handled %s of %d cases" % (res["replayed"], len(cases)))
@@ -145,10 +145,10 @@ def run(ctx, pid):
     if unknown_violation(ctx, pid):
         return
     # ---- I->S
-    take = cases[: (6000 if th else 400)]
+    take = cases[: (1500 if th else 200)]
     res, out, rc = ctx.go_test("internal/data_model", "TestVerifC05C06Trace", inp=take,
-                               env={"VERIF_NRANDOM": 3000 if th else 150, "VERIF_NBIG": 300 if th else 15,
-                                    "VERIF_CHUNK": 1500 if th else 250}, timeout=1500)
+                               env={"VERIF_NRANDOM": 800 if th else 80, "VERIF_NBIG": 80 if th else 8,
+                                    "VERIF_CHUNK": 600 if th else 150}, timeout=7200)
     res = ctx.need_result(res, out, rc, "TestVerifC05C06Trace")
     report(ctx, pid, res.get("mismatches"), "trace-driver")
     files = res.get("files") or []
@@ -159,7 +159,7 @@ def run(ctx, pid):
     def tv(i_path):
         i, path = i_path
         return path, ctx.tlc("SamplerTrace", "SamplerTraceRun.cfg", workers=1, files={"trace.ndjson": path, "SamplerTraceRun.cfg": cfgtext},
-                             timeout=1500, name="trace validation %d" % i, expect_violation=True, heap="4g")
+                             timeout=7200, name="trace validation %d" % i, expect_violation=True, heap="4g")
 
     accepted = nrej = 0
     with concurrent.futures.ThreadPoolExecutor(max_workers=4) as ex:
@@ -186,7 +186,7 @@ def run(ctx, pid):
         return
     # ---- statistical step (C05 only) and helper contracts
     if pid == "C05":
-        nstat = 160 if th else 16
+        nstat = 100 if th else 16
         elig = [c for c in cases if c["leaves"] and not c["input"]["opts"]["quota"]]
         whales = [c for c in elig if any(l["pos"] > 0 for l in c["leaves"])]
         plain = [c for c in elig if not any(l["pos"] > 0 for l in c["leaves"])]
@@ -194,7 +194,7 @@ def run(ctx, pid):
         if not whales:
             raise Infra("no exported input with whales for the statistical step")
         res, out, rc = ctx.go_test("internal/data_model", "TestVerifC05C06Stat", inp=sample,
-                                   env={"VERIF_NRANDOM": 40 if th else 4, "VERIF_NRUNS": 20000}, timeout=1500)
+                                   env={"VERIF_NRANDOM": 20 if th else 4, "VERIF_NRUNS": 20000}, timeout=7200)
         res = ctx.need_result(res, out, rc, "TestVerifC05C06Stat")
         bad = report(ctx, pid, res.get("mismatches"), "stat")
         ctx.ev.add_impl("inputs x 20000 seeded runs of the production path (keep frequency vs 1/SF)", 0 if bad else res["replayed"],
@@ -204,7 +204,7 @@ def run(ctx, pid):
                       "< 1e-8 per run); everything else is exact")
     else:
         res, out, rc = ctx.go_test("internal/data_model", "TestVerifC05C06Stat", inp=[], env={"VERIF_NRANDOM": 0, "VERIF_NRUNS": 1},
-                                   timeout=600)
+                                   timeout=7200)
         res = ctx.need_result(res, out, rc, "TestVerifC05C06Stat")
         report(ctx, pid, res.get("mismatches"), "contracts")
 
@@ -212,12 +212,12 @@ def run(ctx, pid):
         return
     # ---- call sites
     if pid == "C05":
-        res, out, rc = ctx.go_test("internal/agent", "TestVerifC05AgentSampleBucket", env={"VERIF_N": 400 if th else 60}, timeout=900)
+        res, out, rc = ctx.go_test("internal/agent", "TestVerifC05AgentSampleBucket", env={"VERIF_N": 400 if th else 60}, timeout=7200)
         res = ctx.need_result(res, out, rc, "TestVerifC05AgentSampleBucket")
         bad = report(ctx, pid, res.get("mismatches"), "agent")
         ctx.ev.add_impl("buckets through agent Shard.sampleBucket", 0 if bad else res["replayed"], steps=res["steps"])
     else:
-        res, out, rc = ctx.go_test("internal/aggregator", "TestVerifC06HostBudgets", env={"VERIF_N": 2000 if th else 300}, timeout=900)
+        res, out, rc = ctx.go_test("internal/aggregator", "TestVerifC06HostBudgets", env={"VERIF_N": 2000 if th else 300}, timeout=7200)
         res = ctx.need_result(res, out, rc, "TestVerifC06HostBudgets")
         bad = report(ctx, pid, res.get("mismatches"), "aggregator")
         ctx.ev.add_impl("buckets through aggregator calcHostMetricBudgets", 0 if bad else res["replayed"], steps=res["steps"])
